@@ -6,4 +6,6 @@ if ! /venv/bin/python -c "import hypothesis" 2>/dev/null; then
   /venv/bin/pip install --no-index --find-links /opt/veriftools/wheels hypothesis
 fi
 /venv/bin/python -c "import hypothesis, sys; print('hypothesis', hypothesis.__version__, 'python', sys.version.split()[0])"
-mkdir -p .work evidence
+mkdir -p .work evidence .build
+# build the STRL driver (C20) once; checks rebuild it automatically when the C++ sources change
+sh strl/build.sh >/dev/null && echo 'strl driver built'
